@@ -281,7 +281,7 @@ package openflow13
 //@   ensures[C03] elemsat(data, 24, p.Actions, len(p.Actions), "tl")
 //@   ensures[C01] u8(data, 0) == 4 && u8(data, 1) == 13 && be16(data, 2) == uint16(len(data))
 //@   ensures[C13 C01] p.Header.Length == uint16(size(p))
-//@   ensures[C02 C03] @actionslen: be16(data, 16) == uint16(sum(p.Actions)) && p.ActionsLen == uint16(sum(p.Actions))
+//@   ensures[C02 C03 C13] @actionslen: be16(data, 16) == uint16(sum(p.Actions)) && p.ActionsLen == uint16(sum(p.Actions))
 //@   flag notrunc
 //@   modifies p.Header.Length, p.ActionsLen
 //@   loop 1:
